@@ -693,6 +693,21 @@ def rule_counters_after_reset(prog, fixture=False, rule_id="R-C10-7"):
                     if a.get("k") == "CallExpr" and notpl(a.get("q") or "").split("::")[-1] in ("fseek", "fseeko", "fsetpos", "lseek", "seekg"):
                         seek = a
                         break
+                total = None
+                for a in fn.ancestors(n):
+                    if a.get("k") == "ReturnStmt":
+                        total = a
+                        break
+                    if a.get("k") == "BinaryOperator" and a.get("op") == "=" and any(x is n for x in walk(a["c"][1])):
+                        t_ = strip_all(a["c"][0])
+                        if t_ is not None and (t_.get("k") == "MemberExpr" or (t_.get("k") == "UnaryOperator" and t_.get("op") == "*")):
+                            total = a
+                            break
+                if total is not None and seek is None:
+                    k += 1
+                    r.add("%s::%s::%s-as-total#%d" % (fn.relfile(), fn.qn, n.get("n"), k), fn.loc(total), False,
+                          "`%s` hands %s on as if it counted the whole file, but inflateReset() restarts it for every gzip "
+                          "member: for a multi-member file it is the size of the last member only" % (show(total)[:60], n.get("n")))
                 if seek is not None:
                     k += 1
                     r.add("%s::%s::%s-as-position#%d" % (fn.relfile(), fn.qn, n.get("n"), k), fn.loc(seek), False,
